@@ -164,21 +164,26 @@ class Engine(ExprMixin, CallMixin, StmtMixin):
         st.interest[key] = k
         if instantiate:
             for q in list(st.quants):
-                st.fact(self.inst(q, k))
+                st.fact(self.inst(q, k, st))
 
-    def inst(self, q, k):
+    def inst(self, q, k, sink=None):
+        from .values import FACT_SINK
         self._instantiating = getattr(self, '_instantiating', 0) + 1
+        saved = FACT_SINK[0]
+        if sink is not None:
+            FACT_SINK[0] = sink
         try:
             return q.instance(k)
         finally:
             self._instantiating -= 1
+            FACT_SINK[0] = saved
 
     def assume_clause(self, st, items):
         for it in items:
             if isinstance(it, QBool):
                 st.quants.append(it)
                 for k in list(st.interest.values()):
-                    st.fact(self.inst(it, k))
+                    st.fact(self.inst(it, k, st))
             else:
                 st.assume(it)
 
@@ -191,7 +196,7 @@ class Engine(ExprMixin, CallMixin, StmtMixin):
                 k = fresh('sk', IntSort())
                 if st is not None:
                     self.touch(st, k)
-                g = self.inst(it, k)
+                g = self.inst(it, k, st)
                 if st is not None:
                     # neighbours mentioned by the goal instance (k+1, len-1, ...) are instantiation points too
                     for sub in _index_terms(g):
